@@ -229,6 +229,24 @@ def certain(group):
     return s
 
 
+def optional_filter_vars(n):
+    """variables of the LeftJoin conditions (an OPTIONAL's own top-level FILTERs) found anywhere inside a pattern. When the pattern is
+    evaluated under pushed-down bindings, the engine hides every pushed binding from such a condition - also a variable that the OPTIONAL's
+    own scope binds again - so the condition becomes an error where the algebra has a value."""
+    t = n[0]; out = set()
+    if t == "optional":
+        for e in n[1][1]:
+            if e[0] == "filter": out |= expr_vars(e[1])
+        return out | optional_filter_vars(n[1])
+    if t == "group":
+        for e in n[1]: out |= optional_filter_vars(e)
+    elif t == "minus": out |= optional_filter_vars(n[1])
+    elif t == "union": out |= optional_filter_vars(n[1]) | optional_filter_vars(n[2])
+    elif t == "graph": out |= optional_filter_vars(n[2])
+    elif t == "subselect": out |= optional_filter_vars(n[1]["where"])
+    return out
+
+
 def sensitive_vars(n, top=True):
     """variables an element mentions outside its own top-level BGPs/VALUES and does not certainly bind itself: pushing a binding
     for one of them into the element's evaluation (what a top-down engine does) can change the element's own value"""
@@ -297,6 +315,8 @@ def pushdown_triggers(group, left=frozenset()):
             continue
         if k not in ("bgp", "values"):
             if sensitive_vars(e) & acc: hits.add("T2-pushdown-into-nonBGP-operand")
+            inner_of = e[1] if k in ("optional", "minus") else e      # an OPTIONAL's own condition is judged by its parent: only conditions nested deeper count
+            if (optional_filter_vars(["group", [x for x in inner_of[1]]]) if k == "optional" else optional_filter_vars(e)) & acc: hits.add("T2-pushdown-into-nonBGP-operand")
             if acc and k != "minus" and "minus" in features(e): hits.add("T2-pushdown-into-nonBGP-operand")  # a MINUS evaluated under pushed bindings sees a larger left domain
             if k == "optional" and not first_nonfilter and values_so_far: hits.add("T3-values-left-of-optional")
             for sub in ([e[1]] if k in ("optional", "minus") else [e[1], e[2]] if k == "union" else [e[2]] if k == "graph" else [e] if k == "group" else [e[1]["where"]] if k == "subselect" else []):
